@@ -1,6 +1,6 @@
 /* C20.H1c - compile-time definitions: the REAL yr_compiler_define_{integer,boolean,float}_variable (compiler.c:
  * _yr_compiler_define_variable, _yr_compiler_store_data) with the real arena, hash table and object code.
- * Sequence: define "a" (integer v1); then a second definition with symbolic identifier ("a" or "b"), type and value.
+ * Sequence: define "a" (integer v1); then a second definition with symbolic identifier ("a" or "b"), type (integer, boolean, float, or a string without value) and value.
  * Asserted: a duplicate is rejected with ERROR_DUPLICATED_EXTERNAL_VARIABLE and changes NOTHING - the externals table
  * of the future rule set still has exactly one entry holding v1 (a stale second entry would shadow the first one in
  * every scanner and swallow rule-set level definitions); a new identifier adds exactly one entry.
@@ -33,13 +33,22 @@ int main(void)
   size_t used1 = c.arena->buffers[YR_EXTERNAL_VARIABLES_TABLE].used;
   VF_ASSERT(used1 == sizeof(YR_EXTERNAL_VARIABLE), "one entry per defined variable");
   char id[2] = {(char) ('a' + (vf_u8() & 1)), 0};
-  int kind = (int) vf_range(0, 2);
-  if (kind == 0) rc = yr_compiler_define_integer_variable(&c, id, v2);
+  int kind = (int) vf_range(0, 3);
+  if (kind == 3)
+  {
+    /* a string variable without value is invalid whatever the identifier: rejected, nothing left behind */
+    rc = yr_compiler_define_string_variable(&c, id, NULL);
+    VF_ASSERT(rc == ERROR_INVALID_ARGUMENT, "a string external without value is rejected");
+    VF_ASSERT(c.arena->buffers[YR_EXTERNAL_VARIABLES_TABLE].used == used1, "a rejected definition leaves no entry behind in the externals table");
+  }
+  else if (kind == 0) rc = yr_compiler_define_integer_variable(&c, id, v2);
   else if (kind == 1) rc = yr_compiler_define_boolean_variable(&c, id, (int) (v2 & 1));
   else rc = yr_compiler_define_float_variable(&c, id, 1.5);
   YR_EXTERNAL_VARIABLE* ext = (YR_EXTERNAL_VARIABLE*) c.arena->buffers[YR_EXTERNAL_VARIABLES_TABLE].data;
   size_t used2 = c.arena->buffers[YR_EXTERNAL_VARIABLES_TABLE].used;
-  if (id[0] == 'a')
+  if (kind == 3)
+    ;
+  else if (id[0] == 'a')
   {
     VF_ASSERT(rc == ERROR_DUPLICATED_EXTERNAL_VARIABLE, "a duplicate definition is rejected with the documented error");
     VF_ASSERT(used2 == used1, "a rejected definition leaves no entry behind in the externals table");
